@@ -51,6 +51,11 @@ CLAIMED = {
    note="Trusted: system B as the reference (judged itself by C05), trace memories sharing one outcome script, generator. Template operands only in rotation numerators. NV runs use straight-line code; runs where both systems fault identically are discarded (C09's business).",
    technique="deterministic simulation: twin systems under one seeded choice record (placement of compile/commit vs flush, values, outcomes)",
    ref="§5 C06"),
+ "C10": dict(
+   text="Seeded exploration on two simulated nodes (real SDK hosts + real controllers) over a state-vector universe: for every API variant (recv_keep, with_info, post routine/sequential, recv_rsp, recv_measure against the matching create call), pair counts 1-4, generic/NV hardware +- transpiler, other live qubits, expectation on/off, the scheduler draws the Bell state of every pair and the delivery order; oracle: joint state of (receiver qubit i, creator partner i) is Phi+ (or exactly the delivered state with the expectation off), other qubits untouched, post-routine outcomes correlate with the partner's collapsed state, and for measure-directly the exact (Born-weighted) distribution of post-processed outcomes equals that of Phi+ in the requested basis.",
+   note="Trusted: state-vector universe (gate semantics written from definitions), fake link with its own Bell-state numbering (published numbering), fidelity threshold 1-1e-9. Three recorded findings are masked in half of the runs.",
+   technique="deterministic simulation: two-node network with scheduler-owned Bell states, outcomes and delivery order + state-vector oracle",
+   ref="§5 C10"),
 }
 
 PENDING = {p: 'check not built yet in this round (simulation target per DESIGN §5; will be claimed when its rig exists)' for p in ['C05','C06','C08','C09','C10','C11','C12','C13','C14','C18','C20']}
